@@ -1,4 +1,5 @@
 SPEC = {
+    "claimed": True,
     "gen": [],
     "theorems": ["C08_roundtrip", "C08_shortest", "C08_fails_only_by_end", "C08_doc",
                  "C08_warnfree_iff_canonical", "C08_fields", "C08_capacity", "C08_demo_finish",
